@@ -27,6 +27,13 @@ def fname(idx):
     return f"f{10 - idx}"
 
 
+def mname(c, idx):
+    """name of the visible function at (1-based) position idx of the body"""
+    if c["body"][idx - 1] in ("cfgoffalt", "cfgonalt"):
+        return "alt" + str(int(c["case"].lstrip("w")) + (500000 if c.get("assembled") else 0))
+    return fname(idx)
+
+
 def item_text(c, k):
     return c["texts"][k].replace("fn f{i}", "fn " + fname(k + 1)).replace("{i}", str(k + 1)).replace("{n}", str(int(c["case"].lstrip("w")) + (500000 if c.get("assembled") else 0)))
 
@@ -51,7 +58,9 @@ def render(c):
     calls = []
     for idx in c["truth"]:
         q = c["quals"][idx - 1]
-        call = f"T::{fname(idx)}(&app)"
+        if "X" in q:
+            continue            # a cfg-disabled alternative: nothing to call
+        call = f"T::{mname(c, idx)}(&app)"
         if "f" in q:
             call = f"({call})()"
         if "a" in q:
@@ -140,9 +149,9 @@ def main():
         if c.get("assembled"):
             kinds = kinds_of_case[c["twin_of"]]       # (B3 is about the renderer's item texts: those of the plain twin)
         kinds_of_case[c["case"]] = kinds
-        l1 = {"truth": [fname(i) for i in c["truth"]], "ids": list(c["truth"])}
+        l1 = {"truth": [mname(c, i) for i in c["truth"]], "ids": [i for i in c["truth"] if "X" not in c["quals"][i - 1]]}
         cls = ""
-        events.append({"case": c["case"], "l1": l1, "obs": o, "pred": {"mnames": [fname(i) for i in c["pred"]]},
+        events.append({"case": c["case"], "l1": l1, "obs": o, "pred": {"mnames": [mname(c, i) for i in c["pred"]]},
                        "kinds_in": kinds, "body": c["body"], "cls": cls})
     bad, drift = vf.validate(chk, "Trace_C08", events)
     ev = {e["case"]: e for e in events}
